@@ -84,6 +84,8 @@ def _build(case):
     else:
         y = X @ np.array(case["beta"][:X.shape[1]]) + np.array(case["ynoise"][:n])
     w = None if case["w"] is None else np.array(case["w"][:n], dtype=np.float64)
+    if w is not None and case.get("wconst"):
+        w = np.full(n, float(case["wconst"]))        # every row the same weight, not 1: still the weights the local models must be given
     if w is not None:
         for zi in case.get("zero_w", []):
             w[zi % n] = 0.0            # a row of weight zero still belongs to its bucket's training set
@@ -372,6 +374,6 @@ def _cases(draw, tier="quick"):
 
 
 CLAUSES = [
-    Clause("piecewise", check, strategy=lambda tier: st.builds(lambda c, b: dict(c, big=(b == 0)), with_sk(_cases(tier)), st.integers(0, 24)), quick=1600, thorough=25000, quick_shards=16,
+    Clause("piecewise", check, strategy=lambda tier: st.builds(lambda c, b, wc: dict(c, big=(b == 0), wconst=wc), with_sk(_cases(tier)), st.integers(0, 24), st.sampled_from([None, None, None, 4.0, 0.5])), quick=1600, thorough=25000, quick_shards=16,
            doc="partition, local training sets, dispatch, n_jobs independence, probabilities"),
 ]
